@@ -27,11 +27,12 @@ fn rand_ray(rng: &mut Rng, axis: bool) -> Ray {
     let d = if axis {
         match rng.below(6) {
             0 => vector![1.0, 0.0, 0.0],
-            1 => vector![-1.0, 0.0, 0.0],
+            1 => -vector![1.0, 0.0, 0.0],
             2 => vector![0.0, 1.0, 0.0],
-            3 => vector![0.0, -1.0, 0.0],
+            3 => -vector![0.0, 1.0, 0.0],
             4 => vector![0.0, 0.0, 1.0],
-            _ => vector![0.0, 0.0, -1.0],
+            // written as the negation of a unit vector: the zero components are negative zeros
+            _ => -vector![0.0, 0.0, 1.0],
         }
     } else {
         // aim at the scene so that hits are frequent
